@@ -109,6 +109,23 @@ pub fn decode(m: &RefMsg) -> Result<Body, String> {
     }
 }
 
+/// Decode with the AMF3-flag convention peers use: type 17 with a leading 0 byte is an AMF0
+/// command, type 15 is AMF0 data.
+pub fn decode_lenient(m: &RefMsg) -> Result<Body, String> {
+    if m.type_id == 17 && m.payload.first() == Some(&0) {
+        let mut n = m.clone();
+        n.type_id = 20;
+        n.payload.remove(0);
+        return decode(&n);
+    }
+    if m.type_id == 15 {
+        let mut n = m.clone();
+        n.type_id = 18;
+        return decode(&n);
+    }
+    decode(m)
+}
+
 // ---------------------------------------------------------------------------------------------
 // builders for scripted peers
 
